@@ -26,6 +26,7 @@ K_POOL_WRITER = "pool-encoder-writer-survives-free"
 K_POOL_OFF = "pool-encoder-off-survives-free"
 K_DEC_SIMPLE = "decoder-reset-in-simple-mode-keeps-refer"
 K_PUBLISH = "struct-encoder-published-before-fields"
+FIXED_FLAGS = "1111"     # Pool.all_fixed: the variant the headline theorems of Props/C14.v are stated for
 K_POOL_DECBUF = "pool-decoder-keeps-user-input-as-read-buffer"
 K_DEC_BUF = "decoder-resetreader-keeps-previous-input-as-buffer"
 
@@ -681,6 +682,15 @@ def report_race(ctx, s, k, op, solo, conc, forced, extra=None):
                rep)
 
 
+REPAIRS = {
+    "resetbuffer_off": "/repo 717e8be: Encoder.ResetBuffer sets enc.off = 0",
+    "free_writer": "/repo 717e8be: FreeEncoder sets encoder.Writer = nil",
+    "reset_refer_always": "/repo e063fce: Decoder.Reset clears the reference list in simple mode too",
+    "resetreader_drops": "/repo d41e43d: Decoder.ResetReader drops dec.buf when no reader was attached",
+    "encoder_locked": "/repo efd3d7f: newNamedStructEncoder holds the write lock until fields are assigned, Write reads under RLock",
+}
+
+
 def func_body(path, header):
     """text of the Go function whose declaration starts with [header] (up to the first line that is just '}')"""
     try:
@@ -741,51 +751,111 @@ FORCED = {   # shape -> (slot of goroutine 0, slot of goroutine 1, model schedul
 }
 
 
-def run_forced(ctx, locked_variant):
+def forced_one(ctx, case, report=True):
+    """one forced schedule on the real code (own process) + the single-goroutine outputs (another process) + the same
+    schedule through the LOCKED Registry.step.  Returns (status, disagreement or None, number of oracle failures)."""
+    shape, simple, g = case["shape"], case["simple"], case["group"]
+    s0, s1, _sched, sched_locked = FORCED[shape]
+    solo_case = {"id": case["id"] + 10000, "kind": "race", "group": g, "seed": case["seed"], "conc": False,
+                 "ops": [{"op": "marshal", "slot": s0, "simple": simple}, {"op": "marshal", "slot": s1, "simple": simple}]}
+    rc, o, err = run_one_process("c14hook", case)
+    rc2, solo, err2 = run_one_process("c14hook", solo_case)
+    if o is None or solo is None:
+        ctx.report("harness-crash:forced", "executor died in a forced schedule: " + (err + err2)[-300:],
+                   {"case": case, "failing_input": True})
+        return "crash", None, 1
+    if o.get("note"):
+        return "inconclusive:" + o["note"][:40], None, 0
+    line = "reg 1 %s ; %s %s ; %s" % (GROUP_TENV, SLOT_MODEL[s0], SLOT_MODEL[s1], sched_locked)
+    m = hv.run_model("c14", [line])[0]
+    mouts = [x.strip().split(" ") for x in m.split(" ; ")[0].split(" | ")]
+    want_tokens = [[TYPE_LETTER[int(t[1:])] if t[0] == "F" else "?" for t in toks if t] for toks in mouts]
+    seen_tokens = [parse_structs(o["outs"][0]), parse_structs(o["outs"][1])]
+    dis = None
+    if seen_tokens != want_tokens or not o.get("blocked"):
+        dis = (case, o, 0, json.dumps(want_tokens) + " reader-blocked=True",
+               json.dumps(seen_tokens) + " reader-blocked=%s" % bool(o.get("blocked")))
+    fails = 0
+    for k in (0, 1):
+        if o["outs"][k] != solo["outs"][k] or o["errs"][k] != solo["errs"][k]:
+            fails += 1
+            if report:
+                report_race(ctx, dict(case, ops=solo_case["ops"]), k, solo_case["ops"][k], solo, o, forced=True,
+                            extra={"model": m, "replay_needs_hook": True})
+    if len(ctx.cov["samples"]) < 5:
+        ctx.sample({"forced": case, "structs_written": seen_tokens, "reader_blocked": bool(o.get("blocked")), "model": m})
+    return "ok", dis, fails
+
+
+def run_forced(ctx):
     r = ctx.rng
     n = 6 if ctx.tier == "quick" else 24
     disagreements = []
     for i in range(n):
         shape = ("enclosing", "mutual", "same")[i % 3]
-        simple = (i // 3) % 2 == 0
-        g = r.randrange(N_GROUPS)
-        s0, s1, sched, sched_locked = FORCED[shape]
-        case = {"id": 500000 + i, "kind": "forced", "group": g, "seed": 7, "shape": shape, "simple": simple}
-        solo_case = {"id": 510000 + i, "kind": "race", "group": g, "seed": 7, "conc": False,
-                     "ops": [{"op": "marshal", "slot": s0, "simple": simple}, {"op": "marshal", "slot": s1, "simple": simple}]}
-        # (the sample values of slot 5 do not depend on the seed)
-        rc, o, err = run_one_process("c14hook", case)
-        rc2, solo, err2 = run_one_process("c14hook", solo_case)
-        if o is None or solo is None:
-            ctx.report("harness-crash:forced", "executor died in a forced schedule: " + (err + err2)[-300:],
-                       {"case": case, "failing_input": True})
+        case = {"id": 500000 + i, "kind": "forced", "group": r.randrange(N_GROUPS), "seed": 7, "shape": shape,
+                "simple": (i // 3) % 2 == 0}
+        status, dis, fails = forced_one(ctx, case)
+        if status != "ok":
+            ctx.bump("forced_inconclusive", status)
             continue
-        if o.get("note"):
-            ctx.bump("forced_inconclusive", o["note"][:40])
-            continue
-        ctx.count_case("forced|%s|%d|%s" % (shape, g, simple), nontrivial=True)
-        ctx.bump("forced_shape", shape + (":reader-blocked" if o.get("blocked") else ""))
-        # model: the same schedule through Registry.step (locked variant when the reader was blocked)
-        locked = 1 if locked_variant else 0
-        if locked:
-            sched = sched_locked
-        line = "reg %d %s ; %s %s ; %s" % (locked, GROUP_TENV, SLOT_MODEL[s0], SLOT_MODEL[s1], sched)
-        m = hv.run_model("c14", [line])[0]
-        mouts = [x.strip().split(" ") for x in m.split(" ; ")[0].split(" | ")]
-        want_tokens = []
-        for toks in mouts:
-            want_tokens.append([TYPE_LETTER[int(t[1:])] if t[0] == "F" else "?" for t in toks if t])
-        seen_tokens = [parse_structs(o["outs"][0]), parse_structs(o["outs"][1])]
-        if seen_tokens != want_tokens or bool(o.get("blocked")) != bool(locked):
-            disagreements.append((case, o, 0, json.dumps(want_tokens) + " reader-blocked=%s" % bool(locked),
-                                  json.dumps(seen_tokens) + " reader-blocked=%s" % bool(o.get("blocked"))))
-        for k in (0, 1):
-            if o["outs"][k] != solo["outs"][k] or o["errs"][k] != solo["errs"][k]:
-                report_race(ctx, dict(case, ops=solo_case["ops"]), k, solo_case["ops"][k], solo, o, forced=True,
-                            extra={"model": m, "replay_needs_hook": True})
-        if len(ctx.cov["samples"]) < 5:
-            ctx.sample({"forced": case, "structs_written": seen_tokens, "model": m})
+        ctx.count_case("forced|%s|%d|%s" % (shape, case["group"], case["simple"]), nontrivial=True)
+        ctx.bump("forced_shape", shape)
+        if dis:
+            disagreements.append(dis)
     return disagreements
+
+
+# ------------------------------------------------------------------------------ corpus
+def corpus_cases(ctx, hook):
+    """minimised histories / schedules of the repaired defects (corpus/C14-*.json): run first, must pass"""
+    import glob
+    n = 0
+    for path in sorted(glob.glob(os.path.join(hv.V, "corpus", "C14-*.json"))):
+        r = json.load(open(path))
+        name = os.path.basename(path)
+        for case in r["cases"]:
+            n += 1
+            if case["kind"] == "forced":
+                if not hook:
+                    ctx.bump("corpus_inconclusive", name + ":no-hook")
+                    continue
+                status, dis, fails = forced_one(ctx, dict(case, id=700000 + case["id"]), report=False)
+                if status != "ok":
+                    ctx.bump("corpus_inconclusive", name + ":" + status)
+                elif fails or dis:
+                    ctx.report("corpus:" + name, "%s -- fixed by %s, fails again: forced schedule '%s': %s"
+                               % (r["key"], r["fixed_by"], case["shape"], (dis[4] if dis else "output differs from the sequential run")[:300]),
+                               {"case": case, "failing_input": True, "corpus": name, "coq_witness": r.get("coq_witness")})
+                continue
+            why, tries = None, 0
+            while True:
+                tries += 1
+                rc, obs, err = hv.run_harness("c14", [case])
+                if rc != 0 or not obs:
+                    why = "executor died: " + err[-300:]
+                    break
+                o = obs[0]
+                reused = all(so["got"] >= 0 for s, so in list(zip(case["sessions"], o["sessions"]))[1:] if s["get"] == "pool")
+                if r.get("needs_reuse") and not reused and tries < 6:
+                    continue            # the real pool handed out a new coder: nothing was tested
+                if r.get("needs_reuse") and not reused:
+                    ctx.bump("corpus_inconclusive", name + ":pool-did-not-reuse")
+                    break
+                sub = hv.Ctx(ctx.pid, ctx.tier, ctx.seed)
+                sub.known = []
+                c2 = dict(case, flavour="corpus")
+                ml = hv.run_model("c14", [seq_model_line(case["kind"], c2, o, FIXED_FLAGS)])
+                dis = (eval_eseq if case["kind"] == "eseq" else eval_dseq)(sub, [c2], {case["id"]: o}, ml)
+                if sub.violations:
+                    why = "; ".join(v[1][:300] for v in sub.violations)
+                elif dis:
+                    why = "the repaired model gives [%s], observed [%s]" % (dis[0][3][:200], dis[0][4][:200])
+                break
+            if why:
+                ctx.report("corpus:" + name, "%s -- fixed by %s, fails again: %s" % (r["key"], r["fixed_by"], why),
+                           {"case": case, "failing_input": True, "corpus": name, "coq_witness": r.get("coq_witness")})
+    ctx.note("corpus_cases_run_first", n)
 
 
 # ------------------------------------------------------------------------------ driver
@@ -816,10 +886,21 @@ def run(ctx):
     hv.build_modelrun("c14")
     hook = hook_present()
     ctx.note("yield_hook_in_tree", hook)
-    variant, flags = detect_variant()
+    variant, _detected = detect_variant()
     ctx.note("variant_of_tree_under_test", variant)
+    flags = FIXED_FLAGS
+    for name, present in sorted(variant.items()):
+        if not present:
+            # the theorems are about the repaired tree: without this repair they do not describe the tree under test
+            ctx.report("repair-missing:" + name,
+                       "the tree under test does not carry the repair '%s' (%s): Props/C14.v part I is stated for the repaired variant; "
+                       "the behaviour of this tree is the one of part II (historical)" % (name, REPAIRS[name]),
+                       {"failing_input": False, "variant": variant, "correspondence": "source inspection of io/ (detect_variant)"})
     quick = ctx.tier == "quick"
     disagreements = []
+    if hook:
+        build_hooked()
+    corpus_cases(ctx, hook)
 
     cases = gen_eseq(ctx, 700 if quick else 6000)
     cases, byid = run_cases(ctx, "c14", cases, "eseq")
@@ -856,11 +937,10 @@ def run(ctx):
             ctx.note("race_detector", "not available: " + str(e)[:200])
 
     if hook:
-        build_hooked()
-        disagreements += [("forced",) + d for d in run_forced(ctx, variant["encoder_locked"])]
+        disagreements += [("forced",) + d for d in run_forced(ctx)]
     else:
-        ctx.note("forced_note", "the tree under test has no yield hook in io/: the witness schedules of C14_registry_linearizable_refuted"
-                 "[_mutual] are proved for the model but not replayed on the implementation (apply hooks/c14-io.patch to enable)")
+        ctx.note("forced_note", "the tree under test has no yield hook in io/ (hooks/c14-io.patch, /repo 5f1121c): the three schedules "
+                 "that broke the unlocked registry are not forced on the implementation; only the statistical race search looks at it")
 
     ctx.note("rule", "eseq/dseq: seeded random sessions (2-6 uses, 2-9 operations each) over pooled and user-held coders, modes, "
              "failing values/inputs, explicit Reset/ResetBuffer/Writer/options, plus the directed histories of the refutation theorems; "
